@@ -10,12 +10,18 @@ EXTENDS Naturals, Sequences, TLC, Json
 CONSTANTS Lvl,         \* the PUBLISHED table (parsed from expressions.md by the driver)
           MaxOps,      \* operators per (sub-)chain
           MaxDepth,    \* nesting of parentheses (1 = flat chains)
-          MaxTotal     \* operators in the whole expression
+          MaxTotal,    \* operators in the whole expression
+          Reps         \* the operators chains are built from (all 18, or one representative per level for long chains)
 
 (* The 18 binary operators, in the order of the published table. *)
 OpNames == << "eq", "ne", "ge", "le", "lt", "gt", "re", "nre", "in", "is",
               "add", "sub", "mul", "div", "mod", "and", "or", "dot" >>
 Ops == 1..Len(OpNames)
+AllOps == Ops
+(* the climber looks at levels only: long chains over one operator per PUBLISHED level explore *)
+(* every interleaving of levels; what is special to one operator is covered by the chains over *)
+(* all 18 operators                                                                             *)
+OnePerLevel == { CHOOSE o \in Ops : Lvl[o] = l /\ \A o2 \in Ops : Lvl[o2] = l => o <= o2 : l \in { Lvl[o] : o \in Ops } }
 
 (* Lvl (a CONSTANT) is the published table: higher binds tighter.  The     *)
 (* driver parses it out of docsite/.../expressions.md for every run, so    *)
@@ -133,7 +139,7 @@ Close ==
                      [below EXCEPT !.xs = Append(@, [k |-> "grp", ch |-> c])]]
   /\ UNCHANGED total
 
-Next == AddLeaf \/ Open \/ Close \/ \E o \in Ops : AddOp(o)
+Next == AddLeaf \/ Open \/ Close \/ \E o \in Reps : AddOp(o)
 
 Spec == Init /\ [][Next]_vars
 
